@@ -1002,7 +1002,13 @@ Section PROC.
       destruct (process main c st) as [[[m st1] main']|] eqn:E1; cbn [bind]; [|discriminate].
       destruct (IHmain _ _ _ _ Hinv E1) as [Gm I1].
       intros [= <- <- <-]. split; [|exact I1].
-      apply good_and_having; [exact Gm|]. apply forall_egood_nil. destruct fn; reflexivity.
+      assert (Hn : cl_neutral [cmp_mk fn (Id "value") (FloatV v)]).
+      { unfold cl_neutral. cbn [flat_map]. rewrite app_nil_r.
+        rewrite conjs_other by (destruct fn; intros l H; discriminate).
+        constructor; [|constructor]. intros sc. destruct fn; unfold classify, col_is, Eq, Neq, Gt, Ge, Lt, Le; cbn;
+          destruct (existsb _ (sc_tsn sc)); reflexivity. }
+      assert (He : Forall egood [cmp_mk fn (Id "value") (FloatV v)]) by (apply forall_egood_nil; destruct fn; reflexivity).
+      destruct (s_groupby m); [apply good_and_where | apply good_and_having]; assumption.
     - (* PTopKP *)
       destruct (process main c st) as [[[m st1] main']|] eqn:E1; cbn [bind]; [|discriminate].
       destruct (IHmain _ _ _ _ Hinv E1) as [Gm I1].
@@ -1127,7 +1133,7 @@ Section PLAN.
     set (ppl := sel_pipeline sel). set (simple := simple_ops ppl).
     pose proof (plan_ts_logp (sel_matchers sel) ppl simple Hg) as Hfp.
     set (fp := plan_ts (sel_matchers sel) ppl simple) in *.
-    destruct (plan_spl ppl simple (renew_after ppl) 0 (labels_join_idx ppl simple 0) fp (PFingerprintFilter fp PMainInit)) as [spl|] eqn:E;
+    destruct (plan_spl ppl simple (renew_after ppl (labels_join_idx ppl simple 0) 0) 0 (labels_join_idx ppl simple 0) fp (PFingerprintFilter fp PMainInit)) as [spl|] eqn:E;
       [|discriminate].
     assert (Hspl : logp allow m15 spl).
     { apply (plan_spl_logp _ _ _ _ _ _ _ _ Hfp) in E; [exact E|]. constructor; [exact Hfp | constructor]. }
@@ -1191,7 +1197,7 @@ Section PLAN.
     destruct (analyze_m15 s) eqn:Ea.
     - destruct (plan_m15 fp s) as [[p0 wl]|] eqn:Ep; cbn [bind]; [|discriminate].
       intros [= <-]. apply (Hcur p0 false wl fp eq_refl). apply (plan_m15_logp fp s p0 wl (Hm eq_refl) Hfp Ep).
-    - destruct (plan_spl ppl simple (renew_after ppl) 0 (labels_join_idx ppl simple 0) fp (PFingerprintFilter fp PMainInit)) as [spl|] eqn:E;
+    - destruct (plan_spl ppl simple (renew_after ppl (labels_join_idx ppl simple 0) 0) 0 (labels_join_idx ppl simple 0) fp (PFingerprintFilter fp PMainInit)) as [spl|] eqn:E;
         cbn [bind]; [|discriminate].
       assert (Hspl : logp allow m15 spl).
       { apply (plan_spl_logp _ _ _ _ _ _ _ _ Hfp) in E; [exact E|]. constructor; [exact Hfp | constructor]. }
